@@ -622,9 +622,9 @@ func maxPerField(m map[string]int) int {
 // ---------------------------------------------------------------- streams
 
 func (d *driver) blockStreams(thorough bool) {
-	nB, nU, nP, nA, nW := 120, 150, 90, 60, 16
+	nB, nU, nP, nA, nW, nHeavy := 120, 150, 90, 60, 16, 2
 	if thorough {
-		nB, nU, nP, nA, nW = 1200, 2000, 900, 600, 120
+		nB, nU, nP, nA, nW, nHeavy = 1200, 2000, 900, 600, 120, 12
 	}
 	// fixed boundary shapes
 	d.blockCase("block-boundary", [][]string{{""}}, 1)
@@ -689,10 +689,10 @@ func (d *driver) blockStreams(thorough bool) {
 		if d.r.Bool() {
 			lay.After = append(lay.After, layoutBlock{Field: "g", Tokens: d.sortedTokens(d.r.Range(1, 4), false), Big: d.r.Chance(1, 4)})
 		}
-		if i%15 == 0 { // entries larger than a physical block: several physical blocks for the field
+		if i%(nP/nHeavy) == 1 { // entries larger than a physical block: several physical blocks for the field
 			var big []string
-			for k := 0; k < 12; k++ {
-				big = append(big, fmt.Sprintf("%02d", k)+d.fill(d.r.Range(2500, 4000)))
+			for k := 0; k < 7; k++ {
+				big = append(big, fmt.Sprintf("%02d", k)+d.fill(d.r.Range(2600, 3400)))
 			}
 			lay.Entries = d.randSplit(uniqSorted(big))
 		}
@@ -715,12 +715,18 @@ func (d *driver) blockStreams(thorough bool) {
 	for i := 0; i < nW; i++ {
 		var fields []fieldSpec
 		names := []string{"f", "g", "h", "k", "m"}[:d.r.Range(1, 5)]
-		for _, n := range names {
+		heavy := i%(nW/nHeavy) == 1
+		hf := d.r.Intn(len(names))
+		for fi, n := range names {
 			var toks []string
-			switch d.r.Intn(8) {
+			c := d.r.Range(1, 7)
+			if heavy && fi == hf {
+				c = 0
+			}
+			switch c {
 			case 0: // more than a regular block: the field is chunked and forces a new physical block
-				for k := d.r.Range(14, 30); k > 0; k-- {
-					toks = append(toks, d.fill(d.r.Range(500, 1200)))
+				for k := d.r.Range(9, 12); k > 0; k-- {
+					toks = append(toks, d.fill(d.r.Range(1500, 2200)))
 				}
 				toks = uniqSorted(toks)
 			case 1:
